@@ -250,6 +250,10 @@ func simpleEncodeForAnimation(img image.Image, isLossless bool, quality float32)
 		Lossless: isLossless,
 		Quality:  quality,
 		Method:   4,
+		// Alpha is always coded losslessly, as in encodeFrameForAnimation.
+		AlphaCompression: -1,
+		AlphaFiltering:   -1,
+		AlphaQuality:     -1,
 	}
 	if err := Encode(&buf, img, opts); err != nil {
 		return nil, err
